@@ -24,6 +24,9 @@ Definition TGood (w : tworld) : Prop := Good (tE w) ∧ Good (tS w) ∧ Good (tF
 
 Notation tstep_ok := (tstep false false false true true true).
 Notation trun_ok := (trun false false false true true true).
+(** The steps of [VMF.parse] in the pinned tree (the generated [parse_program] is compared with this by an Example
+    in Props/C08.v; the theorems hold for EVERY program without an explicit release). *)
+Definition prog_std : list pstep := [PPlaceholder; PWorld; PDropPlaceholder; PEntities].
 
 Lemma tapply_good w a b c tops order : TGood w → TGood (tapply false false false true true true w a b c tops order).
 Proof. intros (H1 & H2 & H3). split; [|split]; simpl; by apply good_run. Qed.
@@ -47,23 +50,60 @@ Lemma fold_tcopy_good m kp ts : ∀ w, TGood w →
   TGood (fold_left (λ w t, tcopy false false false true true true w t m (-1) true kp) ts w).
 Proof. induction ts as [|t ts IH]; intros w H; simpl; [done|]. apply IH. by apply tcopy_good. Qed.
 
-Lemma tstep_good w e : TGood w → TGood (tstep_ok w e).
+Lemma thide_good w t b : TGood w → TGood (thide false false false true true true w t b).
+Proof. intros H. unfold thide. destruct (ttops w !! t) as [top|]; [|done]. by apply tapply_good. Qed.
+
+Lemma tcreate_h_good w m ent sds listed hidden : TGood w →
+  TGood (tcreate_h false false false true true true w m ent sds listed hidden).
 Proof.
-  intros H. destruct e as [m d sds|m sd|t m d ex|t|t|t|m|t b|s m kp]; cbn [tstep].
+  intros H. unfold tcreate_h. destruct hidden; [apply thide_good|]; by apply tcreate_good.
+Qed.
+
+Lemma tdestroy_good w t : TGood w → TGood (tdestroy false false false true true true w t).
+Proof.
+  intros H. unfold tdestroy. destruct (ttops w !! t) as [top|]; [|done].
+  destruct (tt_listed top); [done|by apply tparts_good].
+Qed.
+
+(** Every step of [VMF.parse] other than an explicit release keeps the invariants of the three worlds. *)
+Lemma pstep_run_good m d st p : pstep_ok p = true → TGood st.1 →
+  TGood (pstep_run false false false true true true m d st p).1.
+Proof.
+  destruct st as [w ph]. intros Hp H. destruct p; simpl in *; try done.
+  - by apply tcreate_good.
+  - apply tcreate_good. revert w H. induction (pd_brushes d) as [|b l IH]; intros w H; simpl; [done|].
+    apply IH. by apply tcreate_h_good.
+  - destruct ph as [t|]; simpl; [by apply tdestroy_good|done].
+  - revert w H. induction (pd_ents d) as [|e l IH]; intros w H; simpl; [done|].
+    apply IH. by apply tcreate_h_good.
+Qed.
+
+Lemma tparse_good prog w m d : prog_ok prog = true → TGood w → TGood (tparse false false false true true true prog w m d).
+Proof.
+  unfold tparse, prog_ok. intros Hp H.
+  assert (Hst : TGood (w, @None nat).1) by done. revert Hp Hst. generalize (w, @None nat).
+  induction prog as [|p prog IH]; intros st Hp Hst; simpl; [done|].
+  simpl in Hp. apply andb_prop in Hp as [Hp1 Hp2]. apply IH; [done|]. by apply pstep_run_good.
+Qed.
+
+Lemma tstep_good prog w e : prog_ok prog = true → TGood w → TGood (tstep_ok prog w e).
+Proof.
+  intros Hp H. destruct e as [m d sds|m sd|t m d ex|t|t|t|m|t b|s m kp|m doc]; cbn [tstep].
   - by apply tcreate_good.
   - by apply tcreate_good.
   - by apply tcopy_good.
   - destruct (ttops w !! t) as [top|]; [|done]. destruct (tt_listed top); [by apply tparts_good|done].
   - destruct (ttops w !! t) as [top|]; [|done]. destruct (tt_listed top); [done|by apply tparts_good].
-  - destruct (ttops w !! t) as [top|]; [|done]. destruct (tt_listed top); [done|by apply tparts_good].
+  - by apply tdestroy_good.
   - by apply tcreate_good.
-  - destruct (ttops w !! t) as [top|]; [|done]. by apply tapply_good.
+  - by apply thide_good.
   - destruct (decide (s = m)); [done|]. by apply fold_tcopy_good.
+  - by apply tparse_good.
 Qed.
 
-Lemma trun_good es : TGood (trun_ok es).
+Lemma trun_good prog es : prog_ok prog = true → TGood (trun_ok prog es).
 Proof.
-  unfold trun. assert (H0 : TGood tw0) by (split; [|split]; apply good0).
+  intros Hp. unfold trun. assert (H0 : TGood tw0) by (split; [|split]; apply good0).
   revert H0. generalize tw0. induction es as [|e es IH]; intros w H; simpl; [done|].
   apply IH. by apply tstep_good.
 Qed.
@@ -71,11 +111,11 @@ Qed.
 (** Entities, their brushes and the faces of those, as one world: after every history of bundled events on
     top-level objects, in every map the existing entities have pairwise distinct positive IDs, and so have the
     existing brushes (world brushes and brushes of entities together), and so have the existing faces. *)
-Theorem trun_unique es m : let w := trun_ok es in
+Theorem trun_unique prog es m : prog_ok prog = true → let w := trun_ok prog es in
   (NoDup (live_ids_in m (tE w)) ∧ ∀ i, i ∈ live_ids_in m (tE w) → 0 < i) ∧
   (NoDup (live_ids_in m (tS w)) ∧ ∀ i, i ∈ live_ids_in m (tS w) → 0 < i) ∧
   (NoDup (live_ids_in m (tF w)) ∧ ∀ i, i ∈ live_ids_in m (tF w) → 0 < i).
-Proof. intros w. destruct (trun_good es) as (H1 & H2 & H3). split; [|split]; by apply good_unique. Qed.
+Proof. intros Hp w. destruct (trun_good prog es Hp) as (H1 & H2 & H3). split; [|split]; by apply good_unique. Qed.
 
 (** The seeded fault "Entity.copy does not pass the map down to Solid.copy" in this model: entity copies allocate
     in the destination map, brush and face copies do not.  Two world brushes in map 1, a brush entity in map 0,
@@ -83,20 +123,20 @@ Proof. intros w. destruct (trun_good es) as (H1 & H2 & H3). split; [|split]; by 
 Definition nested_copy_history : list tev :=
   [TCreateBrush 1 (-1, [-1]); TCreateBrush 1 (-1, [-1]); TCreateEnt 0 (-1) [(-1, [-1])]; TCopy 2 1 (-1) true].
 Theorem nested_copy_from_source_refuted :
-  let w := trun false false false true false false nested_copy_history in
+  let w := trun false false false true false false prog_std nested_copy_history in
   live_ids_in 1 (tE w) = [1] ∧ live_ids_in 1 (tS w) = [1; 2; 2] ∧ live_ids_in 1 (tF w) = [1; 2; 2].
 Proof. vm_compute. done. Qed.
 (** ... and the same history on the source's shape. *)
 Example nested_copy_history_ok :
-  let w := trun_ok nested_copy_history in
+  let w := trun_ok prog_std nested_copy_history in
   live_ids_in 1 (tE w) = [1] ∧ live_ids_in 1 (tS w) = [1; 2; 3] ∧ live_ids_in 1 (tF w) = [1; 2; 3] ∧
   ttops w !! 3%nat = Some {| tt_ent := Some 1%nat; tt_solids := [(3%nat, [3%nat])]; tt_home := 1%nat; tt_listed := true; tt_hidden := false |}.
 Proof. vm_compute. done. Qed.
 
 (** [collapse_one] is the fold of the copies of the source map's listed world brushes, then entities. *)
-Lemma tcollapse_is_copies r1 r2 r3 c1 c2 c3 w s m : s ≠ m →
-  tstep r1 r2 r3 c1 c2 c3 w (TCollapse s m true) =
-  fold_left (tstep r1 r2 r3 c1 c2 c3) ((λ t, TCopy t m (-1) true) <$> tcollapse_sources w s true) w.
+Lemma tcollapse_is_copies r1 r2 r3 c1 c2 c3 pg w s m : s ≠ m →
+  tstep r1 r2 r3 c1 c2 c3 pg w (TCollapse s m true) =
+  fold_left (tstep r1 r2 r3 c1 c2 c3 pg) ((λ t, TCopy t m (-1) true) <$> tcollapse_sources w s true) w.
 Proof.
   intros Hn. cbn [tstep]. destruct (decide (s = m)); [done|].
   generalize (tcollapse_sources w s true). intros l. revert w.
@@ -106,7 +146,7 @@ Qed.
 (** A removed object is not collapsed, a re-added one goes to the end of its map's list: map 0 holds brush A, an
     entity, brush B; A is removed and re-added; the collapse into map 1 copies B, A, then the entity. *)
 Example collapse_order :
-  let w := trun_ok [TCreateSpawn 0; TCreateSpawn 1; TCreateBrush 0 (7, [-1]); TCreateEnt 0 (-1) [];
+  let w := trun_ok prog_std [TCreateSpawn 0; TCreateSpawn 1; TCreateBrush 0 (7, [-1]); TCreateEnt 0 (-1) [];
                     TCreateBrush 0 (9, [-1]); TRemove 2; TReAdd 2; TCollapse 0 1 false] in
   torder w = [3; 4; 2; 5; 6; 7]%nat ∧ live_ids_in 1 (tS w) = [1; 2] ∧ live_ids_in 1 (tE w) = [1; 2] ∧
   (tt_solids <$> ttops w !! 5%nat) = Some [(2%nat, [2%nat])] ∧ (tt_solids <$> ttops w !! 6%nat) = Some [(3%nat, [3%nat])].
@@ -117,6 +157,47 @@ Proof. vm_compute. done. Qed.
 Example collapse_hidden :
   let h := [TCreateSpawn 0; TCreateSpawn 1; TCreateBrush 0 (-1, [-1]); TCreateBrush 0 (-1, [-1]); TCreateEnt 0 (-1) [];
             THide 2 true; THide 4 true] in
-  tcollapse_sources (trun_ok h) 0 false = [3]%nat ∧ tcollapse_sources (trun_ok h) 0 true = [3; 4]%nat ∧
-  (tt_hidden <$> ttops (trun_ok (h ++ [TCollapse 0 1 true])) !! 6%nat) = Some true.
+  tcollapse_sources (trun_ok prog_std h) 0 false = [3]%nat ∧ tcollapse_sources (trun_ok prog_std h) 0 true = [3; 4]%nat ∧
+  (tt_hidden <$> ttops (trun_ok prog_std (h ++ [TCollapse 0 1 true])) !! 6%nat) = Some true.
 Proof. vm_compute. done. Qed.
+
+(** Round 4.  [VMF.parse] as an event.  A Hammer-saved document (world block with id 1, one entity with id 2, one
+    without an id): the placeholder takes 1, so the parsed worldspawn is renumbered to 2; the placeholder dies when
+    [map.spawn] is re-bound, so entity "2" is renumbered to 1 and the entity without an id gets 3.  An entity created
+    afterwards gets 4.  Top-level objects: 0 = placeholder, 1 = worldspawn, 2.. = entities. *)
+Definition hammer_doc : pdoc := {| pd_world := 1; pd_brushes := [(false, (1, [1; 2]))]; pd_ents := [(false, (2, [])); (false, (-1, []))] |}.
+Example parse_hammer_doc :
+  let w := trun_ok prog_std [TParse 0 hammer_doc; TCreateEnt 0 (-1) []] in
+  wid <$> wobjs (tE w) = [1; 2; 1; 3; 4] ∧ walive <$> wobjs (tE w) = [false; true; true; true; true] ∧
+  live_ids_in 0 (tE w) = [2; 1; 3; 4] ∧ live_ids_in 0 (tS w) = [1] ∧ live_ids_in 0 (tF w) = [1; 2] ∧
+  tlisted_of w 0 false = [1]%nat ∧ tlisted_of w 0 true = [3; 4; 5]%nat.
+Proof. vm_compute. done. Qed.
+
+(** The time of the destructor matters for the numbering, not for uniqueness: a placeholder that is kept until the end
+    of [parse] (say through a local variable) keeps ID 1 taken while the entity blocks are parsed. *)
+Example parse_late_drop :
+  let w := trun_ok [PPlaceholder; PWorld; PEntities; PDropPlaceholder] [TParse 0 hammer_doc; TCreateEnt 0 (-1) []] in
+  live_ids_in 0 (tE w) = [2; 3; 4; 1].
+Proof. vm_compute. done. Qed.
+
+(** The hypothesis [prog_ok] is necessary.  When [parse] hands the placeholder's ID back itself before it parses the world
+    block, the worldspawn keeps the ID 1 it asks for -- and the placeholder's destructor releases 1 a second time, while
+    the worldspawn holds it: the next entity that needs a fresh ID (here the one without an id in the file; equally an
+    entity created, copied or collapsed later) receives 1 as well. *)
+Definition prog_early_release : list pstep := [PPlaceholder; PReleasePlaceholder; PWorld; PDropPlaceholder; PEntities].
+Theorem parse_early_release_refuted :
+  let w := trun_ok prog_early_release [TParse 0 hammer_doc] in
+  live_ids_in 0 (tE w) = [1; 2; 1] ∧
+  live_ids_in 0 (tE (trun_ok prog_early_release
+     [TParse 0 {| pd_world := 1; pd_brushes := []; pd_ents := [] |}; TCreateEnt 0 (-1) []])) = [1; 1].
+Proof. vm_compute. done. Qed.
+
+(** [TParse] with the pinned tree's program is the sequence of constructor bundles and the placeholder's destructor. *)
+Lemma tparse_is_events r1 r2 r3 c1 c2 c3 w m d :
+  tparse r1 r2 r3 c1 c2 c3 prog_std w m d =
+  let w1 := tstep r1 r2 r3 c1 c2 c3 prog_std w (TCreateSpawn m) in
+  let w2 := fold_left (λ w (b : bool * (Z * list Z)), tcreate_h r1 r2 r3 c1 c2 c3 w m None [b.2] true b.1) (pd_brushes d) w1 in
+  let w3 := tcreate r1 r2 r3 c1 c2 c3 w2 m (Some (pd_world d)) [] false in
+  let w4 := tstep r1 r2 r3 c1 c2 c3 prog_std w3 (TDestroy (length (ttops w))) in
+  fold_left (λ w (e : bool * (Z * list (Z * list Z))), tcreate_h r1 r2 r3 c1 c2 c3 w m (Some e.2.1) e.2.2 true e.1) (pd_ents d) w4.
+Proof. reflexivity. Qed.
